@@ -104,7 +104,7 @@ def run(ctx):
     d = ctx.newdir('c15')
     names = list(UNITS)
     ic = 0
-    for rep in range(2 if ctx.quick else 10):
+    for rep in range(2 if ctx.quick else 24):
         for a in names:
             for spelling in UNITS[a][1] + ['<SED.write>']:
                 ic += 1
